@@ -91,6 +91,8 @@ def composition(chk, pid, thorough, seed, rnd):
         raise core.Machinery(f'generation gen_system failed: {res.error or res.violated}')
     chk.mc_runs.append(dict(res.summary(), name='gen_system', module='System_Gen.tla'))
     hs = [json.loads(r[1])['h'] for r in tlc.printed(res, 'SCHED')]
+    if thorough:
+        hs = leaves(hs)
     if not thorough:
         # the sampled transitions in which a waiter fires after a unit failed (withdrawals change what the scheduler
         # reports as executing) all run; a seeded sample of the others
